@@ -518,20 +518,7 @@ func (u *Unit) addObl(name, kind string, guard, goal *Term, pos, desc string) {
 	}
 	g := Implies(guard, goal)
 	o := &Obligation{Name: name, Kind: kind, Fn: u.name, Hyps: append([]*Term{}, u.facts...), Goal: g, Pos: pos, Desc: desc, Inputs: u.inputs, Unit: u, Opaque: u.opaque, Fuel: u.fuel}
-	if u.contract != nil {
-		for suf, fs := range u.contract.RevealIn {
-			if strings.HasSuffix(name, "#"+suf) {
-				op := map[string]bool{}
-				for k, v := range u.opaque {
-					op[k] = v
-				}
-				for _, f := range fs {
-					delete(op, f)
-				}
-				o.Opaque = op
-			}
-		}
-	}
+	o.Opaque = u.revealFor(name)
 	if g == True {
 		o.Trivial = true
 	}
@@ -2070,7 +2057,7 @@ func (fr *Frame) finish() {
 			if n := u.counters[name]; n > 1 {
 				name = fmt.Sprintf("%s@%d", name, n)
 			}
-			o := &Obligation{Name: name, Kind: "ensures", Fn: u.name, Hyps: r.hyps(u), Goal: Implies(r.cond, t), Pos: en.Where, Desc: en.Src, Inputs: u.inputs, Unit: u, Opaque: u.opaque, Fuel: u.fuel}
+			o := &Obligation{Name: name, Kind: "ensures", Fn: u.name, Hyps: r.hyps(u), Goal: Implies(r.cond, t), Pos: en.Where, Desc: en.Src, Inputs: u.inputs, Unit: u, Opaque: u.revealFor(name), Fuel: u.fuel}
 			if o.Goal == True {
 				o.Trivial = true
 			}
@@ -2285,4 +2272,25 @@ func (v *Verifier) prescanKinds() {
 			}
 		}
 	}
+}
+
+// revealFor: the opaque set for one obligation (revealin clauses lift opacity for named obligations).
+func (u *Unit) revealFor(name string) map[string]bool {
+	if u.contract == nil || len(u.contract.RevealIn) == 0 {
+		return u.opaque
+	}
+	op := u.opaque
+	for suf, fs := range u.contract.RevealIn {
+		if strings.HasSuffix(name, "#"+suf) {
+			cp := map[string]bool{}
+			for k, v := range op {
+				cp[k] = v
+			}
+			for _, f := range fs {
+				delete(cp, f)
+			}
+			op = cp
+		}
+	}
+	return op
 }
